@@ -30,6 +30,9 @@ type Mismatch struct {
 	Sig    string      `json:"sig"`    // stable class signature (used by known_findings.txt)
 	Detail string      `json:"detail"` // human readable
 	Case   interface{} `json:"case"`   // enough to re-execute (family specific)
+	// Ctx: for serial families (package-level state), the raw lines this process replayed last, the
+	// current one included; used when the case alone does not reproduce (state carried between calls)
+	Ctx []string `json:"ctx,omitempty"`
 }
 
 type Acc struct {
@@ -46,6 +49,7 @@ type Acc struct {
 	Extra      map[string]int64 `json:"extra"`
 	Fatal      string           `json:"fatal,omitempty"` // harness-level failure (exit 2)
 	perSig     map[string]int
+	ctx        []string // last raw lines (serial families only)
 }
 
 func newAcc(f string) *Acc {
@@ -61,8 +65,60 @@ func (a *Acc) Mis(sig, detail string, c interface{}) {
 	a.SigCounts[sig]++
 	if a.perSig[sig] < keepPerSig && len(a.Mismatches) < 200 {
 		a.perSig[sig]++
-		a.Mismatches = append(a.Mismatches, Mismatch{sig, detail, c})
+		mm := Mismatch{Sig: sig, Detail: detail, Case: c}
+		if a.perSig[sig] == 1 && len(a.ctx) > 0 {
+			mm.Ctx = append([]string(nil), a.ctx...)
+		}
+		a.Mismatches = append(a.Mismatches, mm)
 	}
+}
+
+// merge adds the counts, first mismatches and samples of another accumulator (child process or worker)
+func (total *Acc) merge(a *Acc) {
+	total.Lines += a.Lines
+	total.Cases += a.Cases
+	total.Nontrivial += a.Nontrivial
+	total.MisCount += a.MisCount
+	for s, n := range a.SigCounts {
+		total.SigCounts[s] += n
+	}
+	for _, m := range a.Mismatches {
+		if total.perSig[m.Sig] < keepPerSig && len(total.Mismatches) < 200 {
+			total.perSig[m.Sig]++
+			total.Mismatches = append(total.Mismatches, m)
+		}
+	}
+	for _, smp := range a.Samples {
+		if len(total.Samples) < 4 {
+			total.Samples = append(total.Samples, smp)
+		}
+	}
+	for k2, v := range a.Extra {
+		total.Extra[k2] += v
+	}
+	if a.Fatal != "" {
+		total.Fatal = a.Fatal
+	}
+}
+
+// pushCtx remembers the raw line about to be replayed (at most ctxLines lines, ctxBytes bytes)
+const ctxLines, ctxBytes = 4, 4 << 20
+
+func (a *Acc) pushCtx(line string) {
+	a.mu.Lock()
+	a.ctx = append(a.ctx, line)
+	if len(a.ctx) > ctxLines {
+		a.ctx = a.ctx[len(a.ctx)-ctxLines:]
+	}
+	n := 0
+	for i := len(a.ctx) - 1; i >= 0; i-- {
+		n += len(a.ctx[i])
+		if n > ctxBytes && i < len(a.ctx)-1 {
+			a.ctx = a.ctx[i+1:]
+			break
+		}
+	}
+	a.mu.Unlock()
 }
 
 func (a *Acc) Count(cases, nontrivial int) {
@@ -84,6 +140,31 @@ func (a *Acc) Sample(s interface{}) {
 		a.Samples = append(a.Samples, s)
 	}
 	a.mu.Unlock()
+}
+
+// held: results handed out by the package are values of the specification -- they must not change
+// when later calls are made (a result aliasing a recycled buffer does).
+type heldItem struct {
+	name string
+	b    []byte
+	was  string
+}
+type held struct{ items []heldItem }
+
+func (h *held) add(name string, b []byte) {
+	if len(b) > 0 {
+		h.items = append(h.items, heldItem{name, b, string(b)})
+	}
+}
+
+// check reports the first held result whose bytes changed after it was returned
+func (h *held) check(report func(name, was, now string)) {
+	for _, it := range h.items {
+		if string(it.b) != it.was {
+			report(it.name, it.was, string(it.b))
+			return
+		}
+	}
 }
 
 // family registry
@@ -185,23 +266,28 @@ func doReplay(args []string) {
 	}
 	ch := make(chan []byte, 256)
 	var wg sync.WaitGroup
+	// one accumulator per worker: its context is exactly the lines this worker replayed, in order
+	was := make([]*Acc, n)
 	for i := 0; i < n; i++ {
 		wg.Add(1)
+		wa := newAcc(name)
+		was[i] = wa
 		go func() {
 			defer wg.Done()
 			for raw := range ch {
 				// raw is a TLA+ string literal that is also a JSON string
 				var s string
 				if err := json.Unmarshal(raw, &s); err != nil {
-					a.mu.Lock()
-					a.Fatal = "cannot parse TLC line: " + err.Error()
-					a.mu.Unlock()
+					wa.mu.Lock()
+					wa.Fatal = "cannot parse TLC line: " + err.Error()
+					wa.mu.Unlock()
 					continue
 				}
-				if p := guard(func() { f.replay([]byte(s), a) }); p != "" {
-					a.mu.Lock()
-					a.Fatal = "harness panic: " + p
-					a.mu.Unlock()
+				wa.pushCtx(s)
+				if p := guard(func() { f.replay([]byte(s), wa) }); p != "" {
+					wa.mu.Lock()
+					wa.Fatal = "harness panic: " + p
+					wa.mu.Unlock()
 				}
 			}
 		}()
@@ -225,6 +311,9 @@ func doReplay(args []string) {
 	}
 	close(ch)
 	wg.Wait()
+	for _, wa := range was {
+		a.merge(wa)
+	}
 	writeSummary(a, *out)
 	if a.Fatal != "" {
 		fmt.Fprintln(os.Stderr, "mxjconf:", a.Fatal)
@@ -294,30 +383,7 @@ func replayMultiProc(name string, procs int, out string, logw io.Writer) {
 			total.Fatal = fmt.Sprintf("child %d produced no summary (%v)", i, werr)
 			continue
 		}
-		total.Lines += a.Lines
-		total.Cases += a.Cases
-		total.Nontrivial += a.Nontrivial
-		total.MisCount += a.MisCount
-		for s, n := range a.SigCounts {
-			total.SigCounts[s] += n
-		}
-		for _, m := range a.Mismatches {
-			if total.perSig[m.Sig] < keepPerSig && len(total.Mismatches) < 200 {
-				total.perSig[m.Sig]++
-				total.Mismatches = append(total.Mismatches, m)
-			}
-		}
-		for _, smp := range a.Samples {
-			if len(total.Samples) < 4 {
-				total.Samples = append(total.Samples, smp)
-			}
-		}
-		for k2, v := range a.Extra {
-			total.Extra[k2] += v
-		}
-		if a.Fatal != "" {
-			total.Fatal = a.Fatal
-		}
+		total.merge(&a)
 	}
 	writeSummary(total, out)
 	if total.Fatal != "" {
@@ -369,8 +435,13 @@ func doRecord(args []string) {
 // doOne re-executes saved mismatch cases: file holds {"family":..,"case":..}; the family's
 // replay function is fed the case re-wrapped as a line.
 func doOne(args []string) {
+	useCtx := false
+	if len(args) > 0 && args[0] == "-ctx" {
+		useCtx = true
+		args = args[1:]
+	}
 	if len(args) < 1 {
-		fmt.Fprintln(os.Stderr, "usage: mxjconf one <replay-file>")
+		fmt.Fprintln(os.Stderr, "usage: mxjconf one [-ctx] <replay-file>")
 		os.Exit(2)
 	}
 	b, err := os.ReadFile(args[0])
@@ -382,6 +453,7 @@ func doOne(args []string) {
 		Family string          `json:"family"`
 		Sig    string          `json:"sig"`
 		Case   json.RawMessage `json:"case"`
+		Ctx    []string        `json:"ctx"`
 	}
 	if err := json.Unmarshal(b, &r); err != nil {
 		fmt.Fprintln(os.Stderr, err)
@@ -396,6 +468,30 @@ func doOne(args []string) {
 		f.initOnce()
 	}
 	a := newAcc(r.Family)
+	if useCtx {
+		// the lines that preceded the mismatch in its process, in order: reproduced iff the same class shows again
+		// (a family whose lines are sessions recorded from the code -- "path" -- reports a reproduced LAST session;
+		//  families replayed by several workers see the lines twice, so that every order of two calls occurs)
+		passes := 1
+		if !f.serial {
+			passes = 2
+		}
+		scratch := newAcc(r.Family)
+		for p := 0; p < passes; p++ {
+			for i, l := range r.Ctx {
+				if r.Family == "path" && i < len(r.Ctx)-1 {
+					f.replay([]byte(l), scratch)
+				} else {
+					f.replay([]byte(l), a)
+				}
+			}
+		}
+		writeSummary(a, "-")
+		if a.SigCounts[r.Sig] > 0 || (r.Family == "path" && a.MisCount > 0) {
+			os.Exit(1)
+		}
+		return
+	}
 	f.replay(r.Case, a)
 	writeSummary(a, "-")
 	if a.MisCount > 0 {
